@@ -56,6 +56,17 @@ class InjectedFault(Exception):
     """Tagged exception raised by the fault injector (C03)."""
 
 
+class UnprintableFault(InjectedFault):
+    """An exception whose text cannot be produced (its __str__ fails, e.g. by concatenating a number): whoever shields
+    the process from a listener must not depend on rendering it."""
+
+    def __str__(self):
+        return 'code ' + 404  # TypeError
+
+    def __repr__(self):
+        return 'UnprintableFault(...)'
+
+
 def dec(value):
     """Decode tagged JSON into the value domain: {"__tuple__": [...]} -> tuple, {"__uuid__": s} -> UUID."""
     if isinstance(value, dict):
@@ -187,6 +198,8 @@ class ProgListener(ProcessListener):
         lf = w.listener_fault
         if lf is not None and lf['on'] == name and lf['occ'] == cnt:
             w.fault_fired = ('listener', name, cnt)
+            if lf.get('unprintable'):
+                raise UnprintableFault(f'listener:{name}:{cnt}')
             raise InjectedFault(f'listener:{name}:{cnt}')
 
 
@@ -564,6 +577,10 @@ class CodecProg(ProgBase):
     """A process class with a non-identity codec for its inputs and outputs (encode_input_args / decode_input_args)."""
 
     def encode_input_args(self, inputs):
+        from collections.abc import Mapping
+
+        # the hook is documented to receive "a mapping of the inputs as passed to the process"
+        assert isinstance(inputs, Mapping), f'encode_input_args was handed {type(inputs).__name__}, not a mapping'
         return {'__encoded__': copy.deepcopy(plain_mapping(inputs))}
 
     def decode_input_args(self, encoded):
